@@ -37,10 +37,9 @@ Proof.
 Qed.
 
 (* the side condition holds of every marker built from atoms, the universal and the empty marker by &, |, MultiMarker.of and
-   MarkerUnion.of (what parse_marker folds with) — for every fuel, set order and merge oracle whose results satisfy it (a merged
-   version atom is an atom, Any or Empty in the code: checked on every row) — so ==-equal results of the algebra hash alike.
-   only() / exclude() copy grouped atoms of their argument unchanged and combine them with the same operations; they are not
-   part of this statement. *)
+   MarkerUnion.of (what parse_marker folds with), only() and exclude() / without_extras() — for every fuel, set order and merge
+   oracle whose results satisfy it (a merged version atom is an atom, Any or Empty in the code: checked on every row) — so
+   ==-equal results of the library hash alike. *)
 Section Reach.
   Variable vmerge : bool -> atom -> atom -> option marker.
   Variable vcontains : atom -> str -> bool.
@@ -55,15 +54,19 @@ Section Reach.
   | HR_and fuel a b r : hreach a -> hreach b -> mand vmerge vcontains perm fuel a b = Ret r -> hreach r
   | HR_or fuel a b r : hreach a -> hreach b -> mor vmerge vcontains perm fuel a b = Ret r -> hreach r
   | HR_multi_of fuel l r : (forall x, In x l -> hreach x) -> multi_of vmerge vcontains perm fuel l = Ret r -> hreach r
-  | HR_union_of fuel l r : (forall x, In x l -> hreach x) -> union_of vmerge vcontains perm fuel l = Ret r -> hreach r.
+  | HR_union_of fuel l r : (forall x, In x l -> hreach x) -> union_of vmerge vcontains perm fuel l = Ret r -> hreach r
+  | HR_only fuel names m r : hreach m -> monly vmerge vcontains perm fuel names m = Ret r -> hreach r
+  | HR_exclude fuel name m r : hreach m -> mexclude vmerge vcontains perm fuel name m = Ret r -> hreach r.
 
   Theorem C13h_reach_nodup : forall m, hreach m -> nodup_vals m = true.
   Proof.
-    fix IH 2. intros m [| |a|fuel a b r Ha Hb E|fuel a b r Ha Hb E|fuel l r Hl E|fuel l r Hl E]; try reflexivity.
+    fix IH 2. intros m [| |a|fuel a b r Ha Hb E|fuel a b r Ha Hb E|fuel l r Hl E|fuel l r Hl E|fuel names m0 r Hm E|fuel name m0 r Hm E]; try reflexivity.
     - exact (mand_nodup vmerge vcontains perm vmerge_nodup perm_perm fuel a b r E (IH a Ha) (IH b Hb)).
     - exact (mor_nodup vmerge vcontains perm vmerge_nodup perm_perm fuel a b r E (IH a Ha) (IH b Hb)).
     - apply (multi_of_nodup vmerge vcontains perm vmerge_nodup perm_perm fuel l r E). apply forallb_forall. intros x Hx. exact (IH x (Hl x Hx)).
     - apply (union_of_nodup vmerge vcontains perm vmerge_nodup perm_perm fuel l r E). apply forallb_forall. intros x Hx. exact (IH x (Hl x Hx)).
+    - exact (monly_nodup vmerge vcontains perm vmerge_nodup perm_perm names fuel m0 r E (IH m0 Hm)).
+    - exact (mexclude_nodup vmerge vcontains perm vmerge_nodup perm_perm name fuel m0 r E (IH m0 Hm)).
   Qed.
 
   Theorem C13h_hash_reachable (hstr : str -> Z) (hop : mop -> Z) a b :
